@@ -253,7 +253,7 @@ theorem evolves_bodyItem {f : Name} {st st' : PState} {b : BodyItem} {us : List 
   | staticLocal tls ty init =>
     have e1 : Evolves st.globals
         ({ (newAnon st ty init.isSome).1 with
-            globals := updFirst (fun o => o.sym == (newAnon st ty init.isSome).2) (fun o => { o with isTls := tls })
+            globals := updFirst (fun o => o.sym == (newAnon st ty init.isSome).2 && !o.isFunction) (fun o => { o with isTls := tls })
               (newAnon st ty init.isSome).1.globals } : PState).globals :=
       Evolves.upd _ _ (fun _ => ⟨rfl, rfl, rfl, rfl⟩) (evolves_newAnon st ty init.isSome [])
     cases init with
